@@ -22,5 +22,9 @@ CLAIMS["C17"] = {
     "text": "Proof (all paths, all allowed/forbidden lists of suffix strings and opaque compiled patterns; unbounded) that _is_path_valid returns exactly (exists allowed entry hitting the path) and not (exists forbidden entry hitting it), where a str entry hits iff the path ends with it; that the regex built for a suffix denotes exactly that suffix (call-site obligation on re.compile); that find_location returns only existing, valid paths below the root (safe_join contract); and, as a ground lemma over the default lists read from app_settings.py, that no path ending in .py/.pyc/.html/.django/.dj/.tpl is exposed.",
     "note": "Trusted: re.escape / re.compile / Pattern.search stub (meaning known only for re.escape(lit)+'$' or +r'\\Z'), safe_join / os.path stubs, user-supplied compiled patterns are opaque. list()/find() loops over locations are not under contract.",
 }
-NOT_APPLICABLE = {p: NOT_BUILT for p in ["C01","C02","C03","C04","C06","C09","C10","C11","C12","C13","C14","C16","C19","C20"]}
+CLAIMS["C13"] = {
+    "text": "Proof (all argument lists / attribute dicts over None, bool, int, str, SafeString values; unbounded) that append_attributes maps each key to its values joined by one space in order of appearance, that attributes_to_string emits exactly esc(name) for True, nothing for None/False and esc(name)=\"esc(value)\" otherwise, space-joined in order, that a rendered non-safe value contains no double quote, and that wrap_component_js/css refuse exactly the contents that contain their own end tag in any letter case and otherwise wrap verbatim. Two genuine defects are recorded as known findings with a region (TypeError when a non-str value is appended to an existing key; attribute names with separators), the clauses are proved outside those regions.",
+    "note": "Trusted: conditional_escape / format_html / mark_safe stubs (esc axioms A-DJ), str.lower axiom instance. HtmlAttrsNode.render's merge and _normalize_slot_fills (escape exactly once) are not yet under contract.",
+}
+NOT_APPLICABLE = {p: NOT_BUILT for p in ["C01","C02","C03","C04","C06","C09","C10","C11","C12","C14","C16","C19","C20"]}
 NOT_APPLICABLE["C07"] = "contracts over sequential calls cannot quantify over thread interleavings; the library holds no locks, so a rely/guarantee encoding would fail every stability obligation and decide nothing (DESIGN.md section 4); exploring schedules is a different technique and is not substituted"
